@@ -34,6 +34,7 @@ type physLine struct {
 var layoutIndents = []string{"  ", "\t", "    ", "- ", "  - ", "\t- ", " "}
 var layoutSeps = []string{": ", ":  ", ":\t", ": \t "}
 var layoutTrails = []string{"", " ", "\t", "  \t"}
+var layoutHashes = []string{"# ", "#", "#  ", "#\t"}
 var layoutGaps = []string{"", "\n", "# a comment\n", "   \n", "#\n", "\t\n"}
 
 type renderOpts struct {
@@ -93,10 +94,12 @@ func renderFile(x *Exec, f absFile, o renderOpts) (string, []physLine) {
 			ind := layoutIndents[x.Choose(len(layoutIndents), "layout:indent")]
 			if it.IsNote {
 				var t string
+				// (the blank after the # is optional in the documented grammar; more blanks or a tab are layout too)
+				hash := layoutHashes[x.Choose(len(layoutHashes), "layout:note-hash")]
 				if it.Name != "" {
-					t = ind + "# " + it.Name + ": " + it.NoteText
+					t = ind + hash + it.Name + ": " + it.NoteText
 				} else {
-					t = ind + "# " + it.NoteText
+					t = ind + hash + it.NoteText
 				}
 				emit(t, "note", ri, ii, n == total)
 				continue
